@@ -136,6 +136,7 @@ def run_driver(binary, history_lines, workdir, tag="h"):
     env = {"ASAN_OPTIONS": "detect_leaks=0:exitcode=44:abort_on_error=0:symbolize=0", "UBSAN_OPTIONS": "halt_on_error=1:exitcode=45:print_stacktrace=0", "PATH": "/usr/bin:/bin"}
     try:
         r = subprocess.run([binary, hp], capture_output=True, text=True, env=env, timeout=60, errors="replace")
+        kernel.digest_update("driver rc=%d\n%s\n%s" % (r.returncode, "\n".join(history_lines), r.stdout))
         return {"rc": r.returncode, "out": r.stdout, "err": r.stderr}
     except subprocess.TimeoutExpired as e:
         return {"rc": -999, "out": (e.stdout or b"").decode("utf-8", "replace") if isinstance(e.stdout, bytes) else (e.stdout or ""), "err": "timeout"}
@@ -164,15 +165,20 @@ def parse_observations(out):
             done = True
         elif cur is not None:
             if line.startswith("state "):
-                _, o, p, v = line.split(" ", 3)
+                parts = line.split(" ", 3)
+                if len(parts) != 4:
+                    continue   # output cut short by a crash in the middle of an observation
+                _, o, p, v = parts
                 cur["state"].setdefault(o, {})[p] = v
             elif line.startswith("trace "):
                 cur["trace"].append(line[6:])
             elif line.startswith("conn "):
                 parts = line.split(" ")
-                cur["conns"].append((parts[1], parts[2], parts[3], parts[4] == "1"))
+                if len(parts) >= 5:
+                    cur["conns"].append((parts[1], parts[2], parts[3], parts[4] == "1"))
             elif line.startswith("stats "):
                 for kv in line.split()[1:]:
-                    k, v = kv.split("=")
-                    cur[k] = int(v)
+                    if "=" in kv:
+                        k, v = kv.split("=", 1)
+                        cur[k] = int(v) if v.isdigit() else 0
     return obs, abort, done
